@@ -431,7 +431,14 @@ func (t *TriDense) Copy(a Matrix) (r, c int) {
 				copy(t.mat.Data[i*t.mat.Stride:i*t.mat.Stride+i+1], amat.Data[i*amat.Stride:i*amat.Stride+i+1])
 			}
 		default:
+			// The triangles only share the diagonal; the rest of
+			// the copied part of the receiver's triangle is zero in a.
 			for i := 0; i < r; i++ {
+				if tIsUpper {
+					zero(t.mat.Data[i*t.mat.Stride+i+1 : i*t.mat.Stride+c])
+				} else {
+					zero(t.mat.Data[i*t.mat.Stride : i*t.mat.Stride+i])
+				}
 				t.set(i, i, amat.Data[i*amat.Stride+i])
 			}
 		}
